@@ -45,6 +45,27 @@ def fits(v, ty):
     return 0 <= v < (1 << w)
 
 
+def type_of(o):
+    """integer type of an origin where the tree records it (binary operations, casts, typed constants)"""
+    for _ in range(6):
+        if not isinstance(o, tuple) or not o:
+            return None
+        if o[0] == "bin":
+            return o[4] if len(o) > 4 else None
+        if o[0] == "cast":
+            return o[3]
+        if o[0] == "const":
+            return o[3] if len(o) > 3 else None
+        if o[0] == "field" and isinstance(o[1], tuple) and o[1] and o[1][0] == "bin" and o[2] == 0:
+            o = o[1]
+            continue
+        if o[0] in ("ref", "deref"):
+            o = o[1]
+            continue
+        return None
+    return None
+
+
 class Evaluator:
     """leaf(o) -> value | None  decides source values; call(name, resolved, args(list of origins), ev) -> value | None models callees"""
 
@@ -102,7 +123,14 @@ class Evaluator:
         if k == "un":
             v = self.ev(o[2])
             if o[1] == "Not":
-                if o[2][0] == "bin" and o[2][1] in ("Lt", "Gt", "Le", "Ge", "Eq", "Ne") or v in (0, 1):
+                if o[2][0] == "bin" and o[2][1] in ("Lt", "Gt", "Le", "Ge", "Eq", "Ne"):
+                    return 0 if v else 1
+                ty = (o[3] if len(o) > 3 and o[3] else None) or type_of(o[2])
+                if ty == "bool":
+                    return 0 if v else 1
+                if ty in WIDTH and ty not in SIGNED and isinstance(v, int):
+                    return v ^ ((1 << WIDTH[ty]) - 1)
+                if v in (0, 1):
                     return 0 if v else 1
                 raise Unknown("bitwise not of unknown width")
             if o[1] == "Neg":
@@ -304,6 +332,36 @@ def std_call(d, args, ev):
             return ("opt", False, None)
         r = {"rem": lambda: a % c, "div": lambda: a // c, "mul": lambda: a * c, "add": lambda: a + c, "sub": lambda: a - c}[op]()
         return ("opt", 0 <= r < 2 ** 64, r)
+    m = re.search(r"core::num::<impl ([ui](?:8|16|32|64|128|size))>::(next_multiple_of|div_ceil|saturating_sub|saturating_add|wrapping_sub|wrapping_add|abs_diff|pow)$", d or "")
+    if m and len(args) == 2:
+        a, c = ev.ev(args[0]), ev.ev(args[1])
+        if isinstance(a, int) and isinstance(c, int):
+            ty, op = m.group(1), m.group(2)
+            hi = (1 << WIDTH[ty]) - 1
+            if op in ("next_multiple_of", "div_ceil") and c == 0:
+                raise Panic("division by zero")
+            if op == "next_multiple_of":
+                r = (a + c - 1) // c * c
+                if r > hi:
+                    raise Panic("overflow")
+                return r
+            if op == "div_ceil":
+                return (a + c - 1) // c
+            if op == "saturating_sub":
+                return max(0, a - c)
+            if op == "saturating_add":
+                return min(hi, a + c)
+            if op == "wrapping_sub":
+                return (a - c) & hi
+            if op == "wrapping_add":
+                return (a + c) & hi
+            if op == "abs_diff":
+                return abs(a - c)
+            if op == "pow":
+                r = a ** c
+                if r > hi:
+                    raise Panic("overflow")
+                return r
     m = re.search(r"::(is_multiple_of)$", d or "")
     if m and len(args) == 2:
         a, c = ev.ev(args[0]), ev.ev(args[1])
